@@ -188,9 +188,9 @@ type asEpoch struct {
 }
 
 func (e *asEpoch) Subscribe(id string) <-chan aggsendertypes.EpochEvent { return e.ch }
-func (e *asEpoch) Start(ctx context.Context)                              {}
-func (e *asEpoch) GetEpochStatus() aggsendertypes.EpochStatus             { return aggsendertypes.EpochStatus{} }
-func (e *asEpoch) String() string                                        { return "verif epoch notifier" }
+func (e *asEpoch) Start(ctx context.Context)                            {}
+func (e *asEpoch) GetEpochStatus() aggsendertypes.EpochStatus           { return aggsendertypes.EpochStatus{} }
+func (e *asEpoch) String() string                                       { return "verif epoch notifier" }
 
 type asLER struct{ ler common.Hash }
 
@@ -255,6 +255,21 @@ type asL1Leaf struct {
 	mer, rer, ger, ph, hash common.Hash
 	ts                      uint64
 	bn                      uint64
+	// snapshot of the other networks' exit trees this leaf commits to
+	metCount int
+	letCount map[uint32]int
+	lers     []common.Hash // rollup exit tree leaves (index = rollup index)
+}
+
+// a deposit on another network towards this L2
+type asDep struct {
+	leafType       uint8
+	origNet        uint32
+	origAddr, dest common.Address
+	amount         *big.Int
+	metadata       []byte
+	leaf           common.Hash
+	claimed        bool
 }
 
 type asWorld struct {
@@ -284,10 +299,14 @@ type asWorld struct {
 	rootAt    []common.Hash       // number of leaves -> exit root
 	leafHash  []common.Hash
 	l1Leaves  []asL1Leaf
-	l1dep     depTree
-	l1Roots   []common.Hash // root after leaf i
-	l1Last    uint64
-	l1Final   uint64
+	// exits on the other networks (what the L2 claims refer to): the mainnet exit tree and the rollups' local exit trees
+	metDeps []*asDep
+	letDeps map[uint32][]*asDep
+	extra   [][2]string // further (op, observation) pairs produced by the last op (claim data lines)
+	l1dep   depTree
+	l1Roots []common.Hash // root after leaf i
+	l1Last  uint64
+	l1Final uint64
 	// fault arming
 	crashAtSave  bool
 	saveFault    int
@@ -329,6 +348,7 @@ func (w *asWorld) reset(r *Run) {
 	w.signer = &asSigner{}
 	w.epoch = &asEpoch{ch: make(chan aggsendertypes.EpochEvent, 4)}
 	w.l2Blocks = map[uint64][]asL2Ev{}
+	w.letDeps = map[uint32][]*asDep{}
 	w.roots = map[common.Hash]int{}
 	w.rootAt = []common.Hash{w.dep.root()}
 	w.roots[w.dep.root()] = 0
@@ -483,48 +503,122 @@ func asBridge(bn uint64, pos uint64, dc uint32, seed uint64, metaLen int) *bridg
 	return b
 }
 
-func (w *asWorld) asClaim(bn uint64, pos uint64, seed uint64, metaLen int, l1leaf int) *bridgesync.Claim {
-	g := NewRng(seed)
-	lf := w.l1Leaves[l1leaf]
-	c := &bridgesync.Claim{BlockNum: bn, BlockPos: pos,
-		OriginNetwork: uint32(g.Intn(4)), DestinationNetwork: asNet,
-		OriginAddress: common.BytesToAddress(g.Bytes(20)), DestinationAddress: common.BytesToAddress(g.Bytes(20)),
-		FromAddress: common.BytesToAddress(g.Bytes(20)), TxHash: common.BytesToHash(g.Bytes(32)),
-		Metadata: g.Bytes(metaLen), BlockTimestamp: bn * 12, IsMessage: g.Bool(),
-		MainnetExitRoot: lf.mer, RollupExitRoot: lf.rer, GlobalExitRoot: lf.ger,
+// reference Merkle tree over a list of leaves (32 levels, zero leaves beyond the list)
+func refNode(leaves []common.Hash, h uint, q uint64) common.Hash {
+	if h < 64 && (q<<h) >= uint64(len(leaves)) {
+		return zeroHashesRef[h]
 	}
-	if metaLen == 0 {
-		c.Metadata = nil
+	if h == 0 {
+		return leaves[q]
 	}
-	mainnet := g.Bool()
-	rollup := uint32(0)
-	if !mainnet {
-		rollup = uint32(g.Intn(5))
+	l, r := refNode(leaves, h-1, 2*q), refNode(leaves, h-1, 2*q+1)
+	return crypto.Keccak256Hash(l[:], r[:])
+}
+func refRoot(leaves []common.Hash) common.Hash { return refNode(leaves, 32, 0) }
+func refProof(leaves []common.Hash, idx uint32) (p [32]common.Hash) {
+	for h := uint(0); h < 32; h++ {
+		p[h] = refNode(leaves, h, uint64(idx>>h)^1)
 	}
-	leaf := uint32(g.Intn(1 << 16))
-	if g.Chance(10) {
-		leaf = 0xffffffff
+	return
+}
+func refCalcRoot(leaf common.Hash, proof []common.Hash, idx uint32) common.Hash {
+	node := leaf
+	for h := 0; h < len(proof); h++ {
+		if (idx>>uint(h))&1 == 1 {
+			node = crypto.Keccak256Hash(proof[h][:], node[:])
+		} else {
+			node = crypto.Keccak256Hash(node[:], proof[h][:])
+		}
 	}
-	c.GlobalIndex = bridgesync.GenerateGlobalIndex(mainnet, rollup, leaf)
-	for i := 0; i < 32; i++ {
-		c.ProofLocalExitRoot[i] = common.BytesToHash(g.Bytes(32))
-		c.ProofRollupExitRoot[i] = common.BytesToHash(g.Bytes(32))
-	}
+	return node
+}
+
+func asNewDep(g *Rng) *asDep {
+	d := &asDep{leafType: uint8(g.Intn(2)), origNet: uint32(g.Intn(4)), origAddr: common.BytesToAddress(g.Bytes(20)),
+		dest: common.BytesToAddress(g.Bytes(20))}
 	switch g.Intn(4) {
 	case 0:
-		c.Amount = big.NewInt(0)
+		d.amount = big.NewInt(0)
 	case 1:
-		c.Amount = new(big.Int).Sub(new(big.Int).Lsh(big.NewInt(1), 256), big.NewInt(1))
+		d.amount = new(big.Int).Sub(new(big.Int).Lsh(big.NewInt(1), 256), big.NewInt(1))
 	default:
-		c.Amount = new(big.Int).SetBytes(g.Bytes(1 + g.Intn(31)))
+		d.amount = new(big.Int).SetBytes(g.Bytes(1 + g.Intn(31)))
+	}
+	switch g.Intn(3) {
+	case 1:
+		d.metadata = g.Bytes(1 + g.Intn(40))
+	case 2:
+		d.metadata = g.Bytes(32)
+	}
+	b := bridgesync.Bridge{LeafType: d.leafType, OriginNetwork: d.origNet, OriginAddress: d.origAddr, DestinationNetwork: asNet,
+		DestinationAddress: d.dest, Amount: d.amount, Metadata: d.metadata}
+	d.leaf = bsRefLeaf(&b)
+	return d
+}
+
+func depLeaves(ds []*asDep, n int) []common.Hash {
+	out := make([]common.Hash, n)
+	for i := 0; i < n; i++ {
+		out[i] = ds[i].leaf
+	}
+	return out
+}
+
+// the claim of deposit `idx` of the mainnet (rollup < 0) or of rollup index `rollup`, made against L1 info leaf `k`:
+// exactly what the claimer submitted to the L2 bridge contract (proofs towards the exit roots of that leaf)
+func (w *asWorld) asClaim(bn uint64, pos uint64, seed uint64, rollup int, idx int, k int) *bridgesync.Claim {
+	g := NewRng(seed)
+	lf := w.l1Leaves[k]
+	var d *asDep
+	var leaves []common.Hash
+	if rollup < 0 {
+		d, leaves = w.metDeps[idx], depLeaves(w.metDeps, lf.metCount)
+	} else {
+		d, leaves = w.letDeps[uint32(rollup)][idx], depLeaves(w.letDeps[uint32(rollup)], lf.letCount[uint32(rollup)])
+	}
+	c := &bridgesync.Claim{BlockNum: bn, BlockPos: pos,
+		OriginNetwork: d.origNet, DestinationNetwork: asNet, OriginAddress: d.origAddr, DestinationAddress: d.dest,
+		FromAddress: common.BytesToAddress(g.Bytes(20)), TxHash: common.BytesToHash(g.Bytes(32)),
+		Metadata: d.metadata, BlockTimestamp: bn * 12, IsMessage: d.leafType == 1, Amount: d.amount,
+		MainnetExitRoot: lf.mer, RollupExitRoot: lf.rer, GlobalExitRoot: lf.ger,
+	}
+	c.ProofLocalExitRoot = refProof(leaves, uint32(idx))
+	if rollup < 0 {
+		c.GlobalIndex = bridgesync.GenerateGlobalIndex(true, 0, uint32(idx))
+		for i := 0; i < 32; i++ {
+			c.ProofRollupExitRoot[i] = common.BytesToHash(g.Bytes(32))
+		}
+	} else {
+		c.GlobalIndex = bridgesync.GenerateGlobalIndex(false, uint32(rollup), uint32(idx))
+		c.ProofRollupExitRoot = refProof(lf.lers, uint32(rollup))
 	}
 	return c
 }
 
-func asL1LeafOf(bn uint64, i int) asL1Leaf {
+// the L1 info leaf number (bn, i): first some new exits on the mainnet and on rollups (at least one, so that every leaf has
+// its own global exit root), then the leaf commits to the resulting exit roots
+func (w *asWorld) newL1Leaf(bn uint64, i int) asL1Leaf {
 	g := NewRng(bn*1000 + uint64(i) + 99)
-	lf := asL1Leaf{mer: common.BytesToHash(g.Bytes(32)), rer: common.BytesToHash(g.Bytes(32)),
-		ph: common.BytesToHash(g.Bytes(32)), ts: bn*12 + uint64(i), bn: bn}
+	nm := g.Intn(3)
+	nr := g.Intn(4)
+	if nm+nr == 0 {
+		nm = 1
+	}
+	for j := 0; j < nm; j++ {
+		w.metDeps = append(w.metDeps, asNewDep(g))
+	}
+	for j := 0; j < nr; j++ {
+		r := []uint32{1, 1, 1, 0, 2, 4}[g.Intn(6)] // one busy rollup, so that its exit tree gets several leaves
+		w.letDeps[r] = append(w.letDeps[r], asNewDep(g))
+	}
+	lf := asL1Leaf{ph: common.BytesToHash(g.Bytes(32)), ts: bn*12 + uint64(i), bn: bn, metCount: len(w.metDeps), letCount: map[uint32]int{}}
+	lf.lers = make([]common.Hash, 5)
+	for r, ds := range w.letDeps {
+		lf.letCount[r] = len(ds)
+		lf.lers[r] = refRoot(depLeaves(ds, len(ds)))
+	}
+	lf.mer = refRoot(depLeaves(w.metDeps, len(w.metDeps)))
+	lf.rer = refRoot(lf.lers)
 	lf.ger = crypto.Keccak256Hash(lf.mer[:], lf.rer[:])
 	ts := make([]byte, 8)
 	binary.BigEndian.PutUint64(ts, lf.ts)
@@ -550,7 +644,7 @@ func (w *asWorld) exec(line string) string {
 		bn, n := u(ws[1]), int(u(ws[2]))
 		blk := sync.Block{Num: bn, Hash: asL1Header(bn).Hash()}
 		for i := 0; i < n; i++ {
-			lf := asL1LeafOf(bn, i)
+			lf := w.newL1Leaf(bn, i)
 			blk.Events = append(blk.Events, l1infotreesync.Event{UpdateL1InfoTree: &l1infotreesync.UpdateL1InfoTree{
 				BlockPosition: uint64(i), MainnetExitRoot: lf.mer, RollupExitRoot: lf.rer, ParentHash: lf.ph, Timestamp: lf.ts}})
 			w.l1Leaves = append(w.l1Leaves, lf)
@@ -565,7 +659,7 @@ func (w *asWorld) exec(line string) string {
 	case "fin":
 		w.l1Final = u(ws[1])
 		return "ok"
-	case "l2blk": // l2blk <num> <tok>*   tok = b:<metalen>:<seed> | c:<metalen>:<seed>:<l1leaf>
+	case "l2blk": // l2blk <num> <tok>*   tok = b:<metalen>:<seed> | c:<metalen>:<seed>:<m|rN>:<deposit>:<l1leaf>
 		bn := u(ws[1])
 		blk := sync.Block{Num: bn, Hash: common.BigToHash(new(big.Int).SetUint64(bn + 77))}
 		var evs []asL2Ev
@@ -583,7 +677,14 @@ func (w *asWorld) exec(line string) string {
 				w.roots[w.dep.root()] = int(w.nDeposits)
 				w.rootAt = append(w.rootAt, w.dep.root())
 			} else {
-				c := w.asClaim(bn, uint64(i), u(f[2]), int(u(f[1])), int(u(f[3])))
+				rollup := -1
+				if f[3] != "m" {
+					rollup = int(u(f[3][1:]))
+				}
+				c := w.asClaim(bn, uint64(i), u(f[2]), rollup, int(u(f[4])), int(u(f[5])))
+				if len(c.Metadata) != int(u(f[1])) {
+					panic("claim token metadata length mismatch")
+				}
 				evs = append(evs, asL2Ev{claim: c})
 				cp := *c
 				blk.Events = append(blk.Events, bridgesync.Event{Claim: &cp})
@@ -688,6 +789,17 @@ func (w *asWorld) exec(line string) string {
 			w.r.Count("savefault-hit")
 		}
 		return out + " rows=" + w.rowsDump()
+	case "claimdata": // claimdata <cert id> <imported exit index> … (inputs for the model; the observation comes from the wire)
+		id, i := u(ws[1]), int(u(ws[2]))
+		if id == 0 || id > uint64(len(w.agg.certs)) || i >= len(w.agg.certs[id-1].req.ImportedBridgeExits) {
+			return "claim missing"
+		}
+		ib := w.agg.certs[id-1].req.ImportedBridgeExits[i]
+		digest, lf, _ := wireClaimDigest(ib)
+		if lf == nil {
+			return "claim none"
+		}
+		return fmt.Sprintf("claim h=%s idx=%d mer=%s rer=%s", digest, lf.L1InfoTreeIndex, hx(lf.Mer.Value[:4]), hx(lf.Rer.Value[:4]))
 	case "end":
 		w.checkSettledChain()
 		return "ok"
@@ -717,6 +829,7 @@ func asReplay(r *Run, lines []string) {
 	defer w.close()
 	for _, l := range lines {
 		r.Emit(l, guardAs(w, l))
+		w.extra = nil
 	}
 }
 
